@@ -416,8 +416,29 @@ def metadata(ctx):
     chk.floor("R04.e", n, 1, "__call__ implementations")
 
 
+def _order(fi):
+    """node id -> position in a depth-first walk of the (possibly flattened)
+    function: statement order even when inlined nodes carry foreign line
+    numbers."""
+    cache = getattr(fi, "_order_cache", None)
+    if cache is None:
+        cache = {}
+        k = 0
+        stack = [fi.node]
+        while stack:
+            n = stack.pop()
+            cache[id(n)] = k
+            k += 1
+            stack.extend(reversed(list(ast.iter_child_nodes(n))))
+        try:
+            fi._order_cache = cache
+        except Exception:
+            pass
+    return cache
+
+
 def _clock_order(fi, name_or_expr, defs):
-    """Line of the clock read an operand denotes, or None."""
+    """Position of the clock read an operand denotes, or None."""
     e = name_or_expr
     if isinstance(e, ast.Name):
         ds = defs.of(e.id)
@@ -429,7 +450,7 @@ def _clock_order(fi, name_or_expr, defs):
     else:
         stmt = e
     if isinstance(e, ast.Call) and (dotted(e.func) or "") in ("time.perf_counter", "time.time", "time.monotonic", "time.process_time", "perf_counter"):
-        return (stmt.lineno, stmt.col_offset)
+        return _order(fi).get(id(stmt))
     return None
 
 
@@ -447,7 +468,9 @@ def _elapsed(ctx, fi, v):
     ]
     if not solve_calls:
         raise AnalysisError(f"{fi.qualname}: solve call not found")
-    s = (solve_calls[0].lineno, solve_calls[0].col_offset)
+    s = _order(fi).get(id(solve_calls[0]))
+    if s is None:
+        raise AnalysisError(f"{fi.qualname}: solve call position unknown")
     if b < s < a:
         chk.ok("R04.e", fi.qualname, fi.loc(v), "elapsed_time = clock after solve - clock before solve")
     elif a < s < b:
@@ -465,6 +488,7 @@ def _ortools_metadata(ctx, cls, call):
     solve = cls.methods.get("solve")
     if solve is None:
         return
+    solve = ctx.norm.flat(solve)
     md = None
     for m in own_nodes(solve.node):
         if isinstance(m, ast.Dict) and any(isinstance(k, ast.Constant) and k.value == "elapsed_time" for k in m.keys):
